@@ -33,7 +33,7 @@ type DuringCase struct {
 	// increasing along every replay, no event twice, and the replay over the
 	// log at rest delivers every stored event.
 	Appenders int `json:"appenders,omitempty"`
-	Procs   int    `json:"procs"`
+	Procs     int `json:"procs"`
 }
 
 func GenDuring(t *rapid.T) *DuringCase {
